@@ -24,10 +24,11 @@ from fractions import Fraction
 import runner
 
 GROUPS = {
-    'C01': ['messageBuildInflate', 'messageBuildKind'],
+    'C01': ['messageBuildInflate', 'messageBuildKind', 'streamOnFrame', 'textFromPayload'],
     'C05': ['frameIsText', 'frameIsContinuation', 'parseReadText', 'parseReader', 'parserOnFrame', 'clientOnFrameGuard'],
-    'C06': ['deflateWbitsCheck', 'deflateCompressorWbits', 'deflateGetWbits', 'deflateFromOptions'],
-    'C08': ['sessionCheckWritable', 'sessionWrite', 'sessionSendClosing', 'wsOnDisconnect', 'wsOnClose', 'closeFromPayload'],
+    'C06': ['deflateWbitsCheck', 'deflateCompressorWbits', 'deflateGetWbits', 'deflateFromOptions', 'wsSendBinary', 'wsSendText'],
+    'C08': ['sessionCheckWritable', 'sessionWrite', 'sessionSendClosing', 'wsOnDisconnect', 'wsOnClose', 'closeFromPayload',
+            'wsFeedGuard', 'wsIsActive'],
     'C12': ['sessionCheckWritable', 'sessionWrite', 'wsOnDisconnect', 'wsOnClose'],
     'C03': ['frameBuildMaskBit', 'frameBuildByte0', 'frameBuildHeader', 'frameBuildClosePayload',
             'wsSendPingGuard', 'wsSendPongGuard', 'wsClose',
@@ -35,11 +36,13 @@ GROUPS = {
     'C04': ['frameIsControl', 'opcodeIsReserved', 'frameValidateReservedBits', 'compressedFrameValidateReservedBits',
             'frameValidate', 'compressedFrameValidate', 'parseFields', 'parseLenExt', 'parseTooLarge',
             'parseChecksFrame', 'parseChecksCompressed', 'clientOnFrameGuard'],
-    'C15': ['sessionCheckPoll', 'sessionCheckAutoPing', 'sessionCheckPingTimeout', 'sessionCheckCloseTimeout'],
+    'C15': ['sessionCheckPoll', 'sessionCheckAutoPing', 'sessionCheckPingTimeout', 'sessionCheckCloseTimeout',
+            'sessionOnEvent', 'sessionOnPong', 'sessionOnReady', 'sessionSessionTime'],
     'C16': ['persistRetriesInit', 'persistRetriesNext', 'persistAfterEvent', 'persistWaitFor'],
     'C10': ['wsDefaultPort', 'deflateWbitsCheck', 'deflateCompressorWbits', 'deflateGetWbits', 'deflateFromOptions',
             'responseGetStr', 'responseGetOpt', 'wsOnResponse', 'readUntilCheckLength', 'feedReadUntil'],
-    'C19': ['proxyDefaultPort', 'wsDefaultPort'],
+    'C18': ['selectorWait'],
+    'C19': ['proxyDefaultPort', 'wsDefaultPort', 'sessionConnectProxy'],
 }
 
 LEN_EDGES = [0, 1, 2, 123, 124, 125, 126, 127, 128, 129, 130, 255, 256, 65534, 65535, 65536, 65537, 70000,
@@ -760,6 +763,208 @@ def py_feedReadUntil(max_bytes, sep_index, sep_len, buffer_len, first=0):
     return attempt(go)
 
 
+# ---- sites added by helper SITES: event bookkeeping, feed guard, send decisions, stream fragments, Text, selector, proxy choice ----
+
+# the lomond event class a model event name stands for (Proofs/GenTie2.lean `evName`): the generated definition is
+# handed the model's name, the original Python a real object of the class, so a renamed `name` attribute shows
+MODEL_EVENT_CLASS = {'connecting': 'Connecting', 'connect_fail': 'ConnectFail', 'connected': 'Connected', 'ready': 'Ready',
+                     'rejected': 'Rejected', 'text': 'Text', 'binary': 'Binary', 'ping': 'Ping', 'pong': 'Pong', 'closing': 'Closing',
+                     'closed': 'Closed', 'protocol_error': 'ProtocolError', 'poll': 'Poll', 'unresponsive': 'Unresponsive',
+                     'disconnected': 'Disconnected'}
+
+
+def py_sessionOnEvent(name, auto_pong, ready, default_auto_pong=False):
+    from lomond.session import WebsocketSession
+    from lomond import events
+    if name in MODEL_EVENT_CLASS:
+        event = object.__new__(getattr(events, MODEL_EVENT_CLASS[name]))
+    else:
+        event = types.SimpleNamespace(name=name)
+    calls = []
+    s = fake_session(_ready=ready)
+    s._on_ready = lambda: calls.append(1)
+    s._send_pong = lambda e: calls.append(2 if e is event else 99)
+    s._on_pong = lambda e: calls.append(3 if e is event else 99)
+    if default_auto_pong:
+        WebsocketSession._on_event(s, event)
+    else:
+        WebsocketSession._on_event(s, event, auto_pong)
+    if len(calls) > 1:
+        raise AssertionError('more than one handler')
+    return (calls[0] if calls else 0, s._ready)
+
+
+class patched_time(object):
+    """`time.time()` as session.py sees it returns `now`"""
+    def __init__(self, now):
+        self.now = now
+
+    def __enter__(self):
+        import lomond.session as S
+        self.saved = S.time
+        S.time = types.SimpleNamespace(time=lambda: float(self.now))
+
+    def __exit__(self, *a):
+        import lomond.session as S
+        S.time = self.saved
+
+
+def py_sessionOnPong(session_time, last_pong):
+    from lomond.session import WebsocketSession
+    s = fake_session(_last_pong=float(last_pong), _start_time=0.0)
+    with patched_time(session_time):            # the real property: session_time = time.time() - 0.0
+        WebsocketSession._on_pong(s, types.SimpleNamespace(name='pong', data=b''))
+    return int(s._last_pong)
+
+
+def py_sessionOnReady(last_pong, next_ping, start_time, now):
+    from lomond.session import WebsocketSession
+    s = fake_session(_last_pong=float(last_pong), _next_ping=float(next_ping), _start_time=fl(start_time))
+    with patched_time(now):
+        WebsocketSession._on_ready(s)
+    return (int(s._last_pong), int(s._next_ping), Opt(None if s._start_time is None else int(s._start_time)))
+
+
+def py_sessionSessionTime(start_time, now):
+    s = fake_session(_start_time=fl(start_time))
+    with patched_time(now):
+        t = s.session_time
+    if t != int(t):
+        raise AssertionError('not an integer time')
+    return int(t)
+
+
+def py_wsFeedGuard(closed, closing):
+    ws, fed = real_ws(), []
+    ws.state.closed, ws.state.closing = closed, closing
+    ws.state.stream = types.SimpleNamespace(feed=lambda data: fed.append(bytes(data)) or [])
+    if list(ws.feed(b'x')):
+        raise AssertionError('events from an empty stream')
+    return bool(fed)
+
+
+def py_wsIsActive(closed, closing):
+    ws = real_ws()
+    ws.state.closed, ws.state.closing = closed, closing
+    return ws.is_active
+
+
+class SendSpy(object):
+    session_time = 7.0
+
+    def __init__(self):
+        self.calls = []
+
+    def send(self, opcode, data):
+        self.calls.append((1, opcode, bytes(data), None))
+
+    def send_compressed(self, opcode, data, compress):
+        self.calls.append((2, opcode, bytes(data), compress))
+
+
+def py_send_data(method, good, bad, want, typed_ok, compress, compression, default_compress):
+    ws = real_ws()
+    spy = ws.state.session = SendSpy()
+    compressor = types.SimpleNamespace(compress=object())
+    ws.state.compression = compressor if compression else None
+    def go():
+        data = good if typed_ok else bad
+        if default_compress:
+            getattr(ws, method)(data)
+        else:
+            getattr(ws, method)(data, compress)
+        (kind, opcode, payload, comp), = spy.calls
+        if payload != want or (kind == 2 and comp is not compressor.compress):
+            raise AssertionError('payload / compressor')
+        return (kind, opcode)
+    return attempt(go)
+
+
+def py_wsSendBinary(is_bytes, compress, compression, default_compress=False):
+    return py_send_data('send_binary', b'ab\xff', 'ab', b'ab\xff', is_bytes, compress, compression, default_compress)
+
+
+def py_wsSendText(is_text, compress, compression, default_compress=False):
+    return py_send_data('send_text', 'abé', b'ab', 'abé'.encode('utf-8'), is_text, compress, compression, default_compress)
+
+
+def py_streamOnFrame(opcode, fin, frames):
+    """the real WebsocketStream.feed handed one frame by its parser, with `frames` fragments stored"""
+    from lomond.stream import WebsocketStream
+    from lomond.frame import Frame
+    st = WebsocketStream()
+    frame = Frame(opcode, payload=b'p', fin=fin)
+    stored = [Frame(2 if i == 0 else 0, payload=b'q', fin=0) for i in range(frames)]
+    st._frames = list(stored)
+    st._parsed_response = True
+    st.frame_parser = types.SimpleNamespace(feed=lambda data: [frame])
+    built = []
+    st.build_message = lambda fr: built.append((fr is st._frames, list(fr))) or 'MSG'
+    def go():
+        out = list(st.feed(b'x'))
+        if out != ['MSG'] * len(built) or len(built) > 1:
+            raise AssertionError('messages')
+        kind = 0
+        if built:
+            whole, lst = built[0]
+            kind = 2 if whole else 1
+            if lst != ([frame] if kind == 1 else stored + [frame]):
+                raise AssertionError('frames of the message')
+        return (kind, len(st._frames))
+    return attempt(go)
+
+
+def py_textFromPayload(payload, decode):
+    from lomond.message import Text
+    return attempt(lambda: Text.from_payload(bytes(payload)).text)
+
+
+def decode_table(payload):
+    try:
+        dec = bytes(payload).decode('utf-8')
+    except UnicodeDecodeError:
+        dec = None
+    return Fn({bytes(payload): dec})
+
+
+def py_selectorWait(has_pending, pending, readable, max_bytes):
+    from lomond.selectors import SelectorBase
+    waits = []
+    class Sel(SelectorBase):
+        def wait_readable(self, timeout=0.0):
+            waits.append(timeout)
+            return readable
+    class Plain(object):
+        pass
+    class Tls(object):
+        def pending(self):
+            return pending
+    r, n = Sel(Tls() if has_pending else Plain()).wait(max_bytes, 5.0)
+    if waits not in ([], [5.0]) or (waits and (r, n) != (readable, max_bytes)):
+        raise AssertionError('wait_readable')
+    return (r, n)
+
+
+def py_sessionConnectProxy(proxies, secure, none_values=False):
+    from lomond.session import WebsocketSession
+    from lomond.websocket import WebSocket
+    px = dict(proxies)
+    if none_values:                                  # a key whose value is None is read as a missing key
+        for k in ('http', 'https'):
+            px.setdefault(k, None)
+    ws = WebSocket('wss://example.org/' if secure else 'ws://example.org/', proxies=px)
+    s = object.__new__(WebsocketSession)
+    s.websocket = ws
+    sock = types.SimpleNamespace(settimeout=lambda t: None)
+    via = []
+    s._connect_proxy = lambda url: via.append(url) or sock
+    s._connect_sock = lambda host, port, ssl=False: via.append(None) or sock
+    got, proxy_url = s._connect()
+    if got is not sock or via != [proxy_url]:
+        raise AssertionError('socket / route')
+    return Opt(proxy_url)
+
+
 def persist_delays(script, min_wait, max_wait, u):
     """run the real persist() over scripted connections; script = list of rounds, each a list of
     booleans (event is named 'ready' or not).  Returns the BackOff delays as Fractions."""
@@ -1027,6 +1232,36 @@ def cases_for(name, rng, quick):
                             if i + sl < n:
                                 out.append((m, i, sl, i + sl))
         return out
+    if name == 'sessionOnEvent':
+        names = sorted(MODEL_EVENT_CLASS) + ['', 'Ready', 'PING', 'pongs', 'unknown', 'back_off', 'ping ']
+        return [(n, a, r) for n in names for a in B for r in B]
+    if name == 'sessionOnPong':
+        return [(t, l) for t in (0, 1, 5, 30, 31, 1000, (1 << 26) - 1) for l in (0, 1, 30, 2000)]
+    if name == 'sessionOnReady':
+        return [(l, n, st, now) for l in (0, 7) for n in (0, 30) for st in (None, 0, 100) for now in (0, 5, 100, 1 << 30)]
+    if name == 'sessionSessionTime':
+        return [(st, now) for st in (None, 0, 1, 5, 100, 1 << 30) for now in (0, 1, 5, 7, 100, 1000, (1 << 30) + 5)]
+    if name in ('wsFeedGuard', 'wsIsActive'):
+        return [(a, b) for a in B for b in B]
+    if name in ('wsSendBinary', 'wsSendText'):
+        return [(a, b, c) for a in B for b in B for c in B]
+    if name == 'streamOnFrame':
+        return [(op, fin, n) for op in range(16) for fin in (0, 1) for n in (0, 1, 2, 5)]
+    if name == 'textFromPayload':
+        ps = [b'', b'a', b'hello', 'été'.encode(), '€'.encode(), '\U0001f600'.encode(), b'\xff', b'\xc3', b'\xe2\x82',
+              b'\xed\xa0\x80', b'\xc0\xaf', b'ok\xf0\x9f', b'\xf4\x90\x80\x80', b'\x00'] + [blob(rng, rng.randrange(1, 8)) for _ in range(40 * k)]
+        return [(p, decode_table(p)) for p in ps]
+    if name == 'selectorWait':
+        return [(h, p, r, m) for h in B for p in (0, 1, 5, 16384, 70000) for r in B for m in (1, 65536)]
+    if name == 'sessionConnectProxy':
+        out = []
+        urls = ['http://proxy.example:3128', 'https://u:p@proxy.example', '', 'x']
+        for sec in B:
+            out.append(({}, sec))
+            for a in urls:
+                out += [({'http': a}, sec), ({'https': a}, sec), ({'HTTP': a}, sec), ({'http': a, 'https': 'http://other:1'}, sec),
+                        ({'https': a, 'http': 'http://other:1'}, sec)]
+        return out
     raise KeyError(name)
 
 
@@ -1051,6 +1286,12 @@ def variants(name, a):
         out.append(dict(explicit=True))                      # on_disconnect(state) instead of on_disconnect()
     if name == 'responseGetOpt' and a[2] is None:
         out.append(dict(omit=True))                          # get(name) instead of get(name, None)
+    if name == 'sessionOnEvent' and a[1]:
+        out.append(dict(default_auto_pong=True))             # _on_event(event) instead of _on_event(event, True)
+    if name in ('wsSendBinary', 'wsSendText') and a[1]:
+        out.append(dict(default_compress=True))              # send_binary(data) instead of send_binary(data, True)
+    if name == 'sessionConnectProxy':
+        out.append(dict(none_values=True))                   # {'http': None, ..} as _detect_proxies makes it
     if name == 'feedReadUntil':
         limit = a[3] if a[0] is None else min(a[3], a[0] + 1)
         top = min(limit, a[1] + 1 if a[1] >= 0 else limit)   # the first part must not contain the separator
